@@ -10,7 +10,7 @@ DESCRIPTION = {
              "unserialize(serialize(batch)) has the same length/order/classes, marshal(result)==marshal(original) (deep, type-strict), every public "
              "attribute equal after the stated normalisation, is_binary flag == serializer.BINARY and JSON output decodes as UTF-8, cached bytes == "
              "fresh bytes; every received message object, re-serialized alone through the same serializer instance (forwarding), comes back as exactly that message.  Non-trivial = >=2 optional fields present, or payload with bytes/nesting/|int|>=2^32, or batch>=2; distinct by "
-             "(class, present fields, serializer, batched, payload digest)."),
+             "(class, present fields, serializer, batched, payload digest). A fifth serializer configuration is the JSON serializer with its other documented binary convention (use_binary_hex_encoding: '0x' + hex), batched and unbatched."),
     "assumptions": [
         "absent == falsy default (None/False/''/[]/{}) and tuple == list are treated as equal field values (the wire format omits defaults)",
         "payload floats are finite IEEE doubles of magnitude 0 or >= 2.3e-308 and must come back as the same float (smaller ones come back from the bjdata encoder as an equal Decimal, NaN/inf have no JSON form: not generated); Decimals and FlatBuffers are outside the statement; JSON strings starting with NUL are the documented binary convention and not generated",
